@@ -109,7 +109,7 @@ func RunNilEntry(conf core.Config, patterns ...string) *core.Result {
 					res.Count("method_calls_on_map_entries", 1)
 					E := types.ExprString(ast.Unparen(site.Fun.(*ast.SelectorExpr).X))
 					g := cfgx.New(fd.Body, info)
-					g.Keep = cfgx.KeepUnder(func(e ast.Expr) (bool, bool) {
+					g.Keep = cfgx.KeepUnder(cfgx.WithBoolDefs(info, fd.Body, func(e ast.Expr) (bool, bool) {
 						be, ok := ast.Unparen(e).(*ast.BinaryExpr)
 						if !ok || (be.Op != token.EQL && be.Op != token.NEQ) {
 							return false, false
@@ -121,7 +121,7 @@ func RunNilEntry(conf core.Config, patterns ...string) *core.Result {
 							return false, false
 						}
 						return be.Op == token.EQL, true
-					})
+					}))
 					loc, ok := g.Where[site]
 					if !ok {
 						continue
@@ -240,7 +240,7 @@ func RunDiag(conf core.Config) *core.Result {
 					res.Obligations++
 					res.Count("matrix_stores_at_a_pair_of_node_ids", 1)
 					g := cfgx.New(fd.Body, info)
-					g.Keep = cfgx.KeepUnder(func(e ast.Expr) (bool, bool) {
+					g.Keep = cfgx.KeepUnder(cfgx.WithBoolDefs(info, fd.Body, func(e ast.Expr) (bool, bool) {
 						be, ok := ast.Unparen(e).(*ast.BinaryExpr)
 						if !ok || (be.Op != token.EQL && be.Op != token.NEQ) {
 							return false, false
@@ -250,7 +250,7 @@ func RunDiag(conf core.Config) *core.Result {
 							return false, false
 						}
 						return be.Op == token.EQL, true
-					})
+					}))
 					loc, ok := g.Where[c]
 					if !ok {
 						return true
@@ -407,7 +407,7 @@ func RunRangeFirst(conf core.Config) *core.Result {
 					res.Obligations++
 					res.Count("node_ids_used_as_indices", 1)
 					g := cfgx.New(fd.Body, info)
-					g.Keep = cfgx.KeepUnder(func(e ast.Expr) (bool, bool) {
+					g.Keep = cfgx.KeepUnder(cfgx.WithBoolDefs(info, fd.Body, func(e ast.Expr) (bool, bool) {
 						c, ok := ast.Unparen(e).(*ast.CallExpr)
 						if !ok || len(c.Args) != 1 {
 							return false, false
@@ -420,7 +420,7 @@ func RunRangeFirst(conf core.Config) *core.Result {
 							return false, false
 						}
 						return false, true
-					})
+					}))
 					type st struct {
 						b int32
 						w bool
